@@ -96,6 +96,9 @@ fn base_cfg(prop: &str, world: WorldKind, colls: u8, oracles: u32, r: &mut Rng) 
     // the clock is a sweep-line coordinate: negative origins are as ordinary as positive ones
     let t0 = *r.pick(&[0, 0, 0, 5, 1000, 1 << 30, -3, -1000, i32::MIN + 7]);
     let (seg_ty, seg_lo, seg_hi) = if world == WorldKind::Seg { draw_seg_domain(r) } else { (0, 0, 31) };
+    // the process-outcome check also constructs domains the constructor must refuse (1 to 16
+    // points): refusing is the normal return, a panic in `new` is not
+    let (seg_lo, seg_hi) = if world == WorldKind::Seg && oracles & O_CRASH != 0 && r.chance(1, 30) { (seg_lo, seg_lo + *r.pick(&[0i64, 0, 1, 3, 4, 14, 15])) } else { (seg_lo, seg_hi) };
     let sweep_mode = if matches!(world, WorldKind::Map | WorldKind::Set) && r.chance(1, 3) { 1 } else { 0 };
     // a third of the expiring-key runs use the narrow instantiation (8-bit clock)
     // ... and a quarter of the ordered map / set runs the plain one (MapTree<i32, u32>,
